@@ -944,6 +944,111 @@ M("C18", "R-retime-rewritten", PARF,
   '''        new_round_2_meat_kcals = round_2_meat_kcals + adjustment_to_round2''',
   '''        new_round_2_meat_kcals = round_1_meat_kcals + strictly_positive_difference''', None)
 
+# ---------------------------------------------------------------------------- C04
+EXTF = "src/optimizer/extract_results.py"
+INTF = "src/optimizer/interpret_results.py"
+M("C04", "feed-reported-as-eaten", EXTF,
+  '''        ) = self.extract_to_humans_feed_and_biofuel(
+            variables["stored_food_to_humans"],
+            variables["stored_food_feed"],''', '''        ) = self.extract_to_humans_feed_and_biofuel(
+            variables["stored_food_feed"],
+            variables["stored_food_to_humans"],''', "C04.CHAIN")
+M("C04", "seaweed-kcals-ratio-forgotten", EXTF,
+  '''            variables["seaweed_biofuel"],
+            self.constants["SEAWEED_KCALS"],''', '''            variables["seaweed_biofuel"],
+            1,''', "C04.COEF")
+M("C04", "floor-loosened", OPT,
+  '''        min_value = (
+            model.objective.value() * 0.99995
+        )  # reach almost the same as objective, but allow for small rounding error if needed
+
+        # Add the constraint for consumed_kcals each month
+        for month in range(0, self.NMONTHS):''', '''        min_value = (
+            model.objective.value() * 0.995
+        )  # reach almost the same as objective, but allow for small rounding error if needed
+
+        # Add the constraint for consumed_kcals each month
+        for month in range(0, self.NMONTHS):''', "C04.FLOOR")
+M("C04", "floor-skips-first-month", OPT,
+  '''        # Add the constraint for consumed_kcals each month
+        for month in range(0, self.NMONTHS):
+            maximizer_string = (
+                "Old_Objective_Month_"''', '''        # Add the constraint for consumed_kcals each month
+        for month in range(1, self.NMONTHS):
+            maximizer_string = (
+                "Old_Objective_Month_"''', "C04.FLOOR")
+M("C04", "smoothing-on-unfloored-model", OPT,
+  '''        model_smoothing = model.copy()''', '''        model_smoothing = LpProblem(name="smoothing", sense=LpMinimize)''', "C04.FLOOR")
+M("C04", "csv-rounded", INTF,
+  '''                "fish": np.array(self.fish_kcals_equivalent.kcals),''',
+  '''                "fish": np.round(np.array(self.fish_kcals_equivalent.kcals), 1),''', "C04.CSV")
+M("C04", "csv-column-swapped", INTF,
+  '''                "scp": np.array(self.scp_kcals_equivalent.kcals),''',
+  '''                "scp": np.array(self.cell_sugar_kcals_equivalent.kcals),''', "C04.CSV")
+M("C04", "split-first-arm-double-counts", EXTF,
+  '''                immediately_eaten = cf_produced
+                new_stored_crops_eaten = cf_eaten - cf_produced''', '''                immediately_eaten = cf_produced
+                new_stored_crops_eaten = cf_eaten''', "C04.SPLIT")
+M("C04", "split-unscaled-part", EXTF,
+  '''            new_stored_eaten_output.append(new_stored_crops_eaten * conversion)''',
+  '''            new_stored_eaten_output.append(new_stored_crops_eaten)''', "C04.SPLIT")
+M("C04", "sum-adds-split-series", INTF,
+  '''            + self.meat
+            + self.milk
+        )''', '''            + self.meat
+            + self.milk
+            + self.new_stored_outdoor_crops
+        )''', "C04.SUMSET")
+M("C04", "sum-drops-milk", INTF,
+  '''            + self.meat
+            + self.milk
+        )''', '''            + self.meat
+        )''', "C04.SUMSET")
+M("C04", "percent-from-wrong-extractor-field", INTF,
+  '''        self.scp = extracted_results.scp_to_humans.in_units_percent_fed()''',
+  '''        self.scp = extracted_results.scp_feed.in_units_percent_fed()''', "C04.CHAIN")
+M("C04", "kcals-equivalent-wrong-unit", INTF,
+  '''        self.meat_kcals_equivalent = extracted_results.meat.in_units_kcals_equivalent()''',
+  '''        self.meat_kcals_equivalent = extracted_results.meat.in_units_percent_fed()''', "C04.CHAIN")
+M("C04", "generic-conversion-uses-fat-monthly", EXTF,
+  '''            production_kcals,
+            ratio_kcals / self.constants["KCALS_MONTHLY"],''', '''            production_kcals,
+            ratio_kcals / self.constants["FAT_MONTHLY"],''', "C04.COEF")
+M("C04", "headline-from-rounded", INTF,
+  '''        humans_fed_sum = self.get_sum_by_adding_to_humans()
+
+        # Get the percentage of people fed and the constraining nutrient.
+        (
+            self.percent_people_fed,
+            self.constraining_nutrient,
+        ) = self.get_percent_people_fed(humans_fed_sum)
+''', '''''', "C04.SUMSET", more=[(INTF, '''        ) = self.correct_and_validate_rounding_errors()
+''', '''        ) = self.correct_and_validate_rounding_errors()
+        humans_fed_sum = self.get_sum_by_adding_to_humans()
+        (
+            self.percent_people_fed,
+            self.constraining_nutrient,
+        ) = self.get_percent_people_fed(humans_fed_sum)
+''')])
+M("C04", "R-sum-reordered", INTF,
+  '''            self.stored_food
+            + self.outdoor_crops
+            + self.seaweed''', '''            self.seaweed
+            + self.outdoor_crops
+            + self.stored_food''', None)
+M("C04", "R-split-rewritten", EXTF,
+  '''            if cf_produced <= cf_eaten:
+                immediately_eaten = cf_produced
+                new_stored_crops_eaten = cf_eaten - cf_produced
+            else:
+                immediately_eaten = cf_eaten
+                new_stored_crops_eaten = 0''', '''            if cf_eaten < cf_produced:
+                new_stored_crops_eaten = 0
+                immediately_eaten = cf_eaten
+            else:
+                new_stored_crops_eaten = cf_eaten - cf_produced
+                immediately_eaten = cf_eaten - new_stored_crops_eaten''', None)
+
 # ---------------------------------------------------------------------------- runner
 
 COPY = ["src", "scenarios", "scripts", "plot_manuscript_figures.py", "tests"]
